@@ -75,6 +75,89 @@ add("C08", EXPL, TECH_INPUT,
     "Trusts mc/ref/gen.py; the ambiguous 'combined bank code + branch code' input is excluded.",
     "DESIGN.md section 4 C08")
 
+add("C09", EXPL, TECH_INPUT,
+    "For the 19 computing countries every body of the C06 family and every case of the C08 menu product "
+    "is generated and must pass national validation and the published rule; seeded random draws "
+    "likewise; every nationally valid IBAN of every country with positions is decomposed through the "
+    "eight accessors and rebuilt, compared at every covered position.",
+    "Trusts mc/ref/nat.py for 'nationally valid'; reserved filler positions (TR[5], MU[20:23]) exempt.",
+    "DESIGN.md section 4 C09")
+add("C10", EXPL, TECH_INPUT,
+    "Per country valid and invalid texts, BIC bases: every gap x 5 white-space kinds (single, double, "
+    "pairs of gaps), all case patterns (all 2^n for <= 11 letters); same verdict, equal objects, "
+    "canonical compact form, reference formatting, parse(formatted) == parse(compact) == object.",
+    "White-space kinds and ASCII case as named by the property; other Unicode belongs to C01.",
+    "DESIGN.md section 4 C10")
+add("C11", EXPL, TECH_INPUT,
+    "Every accepted IBAN among all bases x all fillers x conforming substitutions and the length/prefix "
+    "families, every accepted BIC of the C04 families: concatenation, eight accessors vs. the published "
+    "positions, disjointness, IBAN- vs BBAN-level accessors, from_bban reassembly.",
+    "Published positions = the tree's merged table read by mc/ref/reg.py.",
+    "DESIGN.md section 4 C11")
+add("C12", EXPL, TECH_INPUT + "; configurations: all bank lists of <= 3 entries over a 36-entry alphabet "
+    "installed through the library's own index-building statements",
+    "Exhaustive over the bundled registry (every key, every BIC, unlisted neighbours, an IBAN around "
+    "every key) and over all synthetic registries of <= 3 entries: candidates, selection predicate, "
+    "InvalidBankCode, inversion, iban.bank/bic/names.",
+    "Trusts mc/ref/lookup.py; synthetic registries replace registry state in-process and are restored "
+    "(restoration verified).",
+    "DESIGN.md section 4 C12")
+add("C13", EXPL,
+    "deviation-bounded choice-tree exploration (E1): the random generator is a seam whose every answer is "
+    "a choice point; all answer sequences with <= 1 (thorough 2) non-default answers are executed; plus "
+    "real seeds across processes and hash seeds",
+    "Every country x registry mode x pin configuration: every bank, every character at every generated "
+    "position, every country choice (<= 1 deviation) must give a valid IBAN honouring the pins or the "
+    "documented overflow error; equal seeds give equal results in-process, across fresh processes and "
+    "under 5 PYTHONHASHSEED values.",
+    "Scripted answer sequences need not be Mersenne-Twister producible (random= accepts any generator); "
+    "deviations are placed within the first 80 choice points.",
+    "DESIGN.md section 4 C13")
+add("C14", "model_checking",
+    "stateless model checking of the implementation: real threads under a sys.settrace baton scheduler, "
+    "ALL schedules with <= p preemptions (iterative context bounding) at source-line and bytecode "
+    "granularity, per-thread results compared with solo runs",
+    "273 (quick) harnesses of 2-3 threads over every Bundesbank method object (operands chosen so that "
+    "their scratch values differ), the IBAN-level path, lookups, generation, seeded random draws: every "
+    "schedule within the preemption bound is executed on the real code; replay determinism is asserted "
+    "per harness.",
+    "Switch points are line/opcode events inside schwifty/; foreign code is atomic; no free-threaded "
+    "build, no multiprocessing; bounds per harness group are in the evidence.",
+    "DESIGN.md section 4 C14")
+add("C15", "model_checking",
+    "explicit-state model checking of the implementation: breadth-first search to closure over the "
+    "library's global state (canonical fingerprint, states re-created by forking the pristine process "
+    "and replaying the shortest history), invariants on every transition; plus merge-free enumeration "
+    "of operation sequences",
+    "Every (reachable state, operation) transition over a 49-operation (thorough 65) alphabet is executed: "
+    "outcome equals the fresh-interpreter outcome, registry payload equals its post-import deep copy, "
+    "earlier objects unchanged; all short sequences are additionally executed without state merging.",
+    "The fingerprint covers module globals, class attributes, instance dicts and properties of schwifty "
+    "objects; operations outside the alphabet are not covered.",
+    "DESIGN.md section 4 C15")
+add("C16", EXPL, TECH_INPUT,
+    "All ordered pairs of ~110 IBAN/BIC/BBAN objects (valid and allow_invalid) and plain strings under "
+    "six operators, hashing, dict and set lookup; sorted() of all 3-subsets of a pool in all orders; "
+    "copy, deepcopy and all pickle protocols of every object.",
+    "Reference = Python str semantics on the compact strings.",
+    "DESIGN.md section 4 C16")
+add("C17", EXPL,
+    "exhaustive enumeration of every entry of the bundled data (configurations) against structural "
+    "obligations, plus the real library on an IBAN built around every bank entry",
+    "Every country entry, every registered algorithm and every bank entry of the tree's data is checked "
+    "against every obligation of the statement; nothing is sampled and no counts are hard-coded.",
+    "Structure string = bban_spec; iban_spec / country echo only reported.",
+    "DESIGN.md section 4 C17")
+add("C18", EXPL, TECH_INPUT + "; configurations: all sets of <= 3 registry files x all file-name orders x "
+    "all directory-listing permutations through the real loader in a sandbox",
+    "merge_dicts on all pairs of nested documents up to 3 (thorough 4) nodes and all triples of small "
+    "ones; the real loader on every file set / name order / listing order, the bank loader with every "
+    "small v2 document in every position; API behaviour on the effective data; 10 end-to-end "
+    "configurations in a scratch package copy imported by a fresh interpreter.",
+    "Trusts mc/ref/reg.py's merge/expansion; the harness owns the directory listing order through a Path "
+    "subclass.",
+    "DESIGN.md section 4 C18")
+
 NOT_APPLICABLE = {
 }
 
